@@ -114,6 +114,9 @@ def writers_vcs() -> List[core.VC]:
     want = ["raw_trace_content = self.t.get_raw_trace_for_one_rank(rank=rank)", 'raw_trace_content["traceEvents"].extend(ev_list)',
             'output_file = self.t.trace_files[rank].replace(".json", f"{output_suffix}.json")', "self.t.write_raw_trace(output_file, raw_trace_content)"]
     missing = [x for x in want if x not in gs]
+    if missing:
+        # a textual difference is not a defect: outside the contract's reading (undecided; the bounded file comparisons decide)
+        raise pyvc.Unsupported("generate_trace_with_counters no longer matches the contract's reading: " + "; ".join(missing))
     vcs.append(core.VC(f"{PROP}.generate_trace_with_counters.appends_only", [], z3.BoolVal(not missing), "vc", [g.fq], {},
                        note="source events followed by the counter events (list.extend), written under <name><suffix>.json[.gz]" + (f"; changed: {missing}" if missing else "")))
     raw = extract.get_function(TR, "Trace.get_raw_trace_for_one_rank")
